@@ -491,6 +491,37 @@ def value_text(ctx, rep, clause):
        f'value', f.loc(bad[0]) if bad else f.loc(), clause)
 
 
+def marker_order(ctx, rep, clause):
+    """at one boundary every closing marker precedes every opening marker, whatever the order of the interval list
+    (reverse() leaves the list in descending order): one loop over the intervals must not emit both"""
+    program = ctx.program
+    g = writer_func(program, '_serialize_annotation_middle')
+    loop = None
+    for st in g.node.body:
+        if isinstance(st, ast.For) and 'enumerate(annotation.sequence)' in norm_stmt(st.iter):
+            loop = st
+    if loop is None:
+        raise AnalysisError('_serialize_annotation_middle: residue loop not found')
+    idx = loop.target.elts[0].id if isinstance(loop.target, ast.Tuple) else None
+    iv_loops = [x for x in ast.walk(loop) if isinstance(x, ast.For) and
+                norm_stmt(x.iter) in ('annotation.intervals', 'annotation._intervals')]
+    kinds = []
+    for lp in iv_loops:
+        opens = any(isinstance(y, ast.If) and f'.start == {idx}' in norm_stmt(y.test) for y in ast.walk(lp))
+        closes = any(isinstance(y, ast.If) and f'.end == {idx}' in norm_stmt(y.test) for y in ast.walk(lp))
+        kinds.append((lp.lineno, opens, closes))
+    kinds.sort()
+    mixed = [k for k in kinds if k[1] and k[2]]
+    first_open = min([k[0] for k in kinds if k[1]], default=None)
+    last_close = max([k[0] for k in kinds if k[2]], default=None)
+    ok = bool(kinds) and not mixed and first_open is not None and last_close is not None and last_close < first_open
+    ob(rep, 'KIND', g.fq, 'at one boundary closing markers are written before opening markers for any order of the '
+       'interval list', ok, 'closings in a first pass, openings in a second',
+       'one pass over the intervals writes both `(` and `)` for boundary i, in list order: two adjacent intervals held '
+       'in descending order (as reverse() leaves them) are written `()`: `(PE)[1](PT)[2]IDE` reversed serializes to '
+       '`EDI(TP()[2]EP)[1]`', g.loc(iv_loops[0]) if iv_loops else g.loc(loop), clause)
+
+
 def index_kinds(ctx, rep, clause):
     """interval bounds are Boundaries (0..n), residue modifications are Positions (0..n-1), on both sides"""
     program = ctx.program
@@ -528,6 +559,7 @@ def index_kinds(ctx, rep, clause):
     ob(rep, 'KIND', g.fq, 'interval markers for bound i are written before residue i', ok,
        'Boundary i sits between residue i-1 and residue i',
        'interval markers are no longer emitted before the residue they bound', g.loc(loop), clause)
+    marker_order(ctx, rep, clause)
     tail = [s for s in g.node.body if g.node.body.index(s) > g.node.body.index(loop)]
     tail_txt = ' '.join(norm_stmt(s) for s in tail)
     ok = 'len(annotation.sequence)' in tail_txt and '.end ==' in tail_txt and "append(')')" in tail_txt
